@@ -20,7 +20,7 @@ RULE = (
     "case = a tree of nested contexts over one Aspire instance: enable_pool(pool, close_pool, parallelize_prior) and "
     "auto_checkpoint(path in {f0, f1}, every, save_config, save_flow) - so nested contexts may target the same file with other options -, with bodies made of no-ops, fit() and sample_posterior(importance) "
     "calls, and an exception injected at one position (before/after each nested context, in the innermost body, or inside a "
-    "sampling call through the likelihood) or nowhere. (1) exhaustive, on every run: all chains of depth 1..3 over 8 context "
+    "sampling call through the likelihood) or nowhere; the injected object is an Exception subclass or a BaseException that is not one (like KeyboardInterrupt). (1) exhaustive, on every run: all chains of depth 1..3 over 8 context "
     "variants x every injection position x {no-op body, sampling body} ('exhaustive' refers to this part); (2) generated: trees of depth <= 4 "
     "with siblings and mixed bodies. Oracle: at every context exit (normal or exceptional) identity of log_likelihood / "
     "log_prior and a deep copy of the checkpoint defaults (or their absence) equal the snapshot taken at that context's entry; the "
@@ -48,6 +48,10 @@ VARIANTS = [
 
 class InjectedFault(Exception):
     pass
+
+
+class InjectedInterrupt(BaseException):
+    """an interruption that is not an Exception subclass (like KeyboardInterrupt / SystemExit)"""
 
 
 class FakePool:
@@ -102,7 +106,7 @@ class Runner:
             me.pool_seen_by_likelihood.append(map_fn)
             if me.lik_fault:
                 me.lik_fault = False
-                me.fault = InjectedFault("inside sampling")
+                me.fault = (InjectedInterrupt if me.case.get("fault_kind") == "interrupt" else InjectedFault)("inside sampling")
                 raise me.fault
             return -0.5 * xp.sum(samples.x**2, axis=-1)
 
@@ -120,7 +124,7 @@ class Runner:
         k = self.counter
         self.counter += 1
         if self.fault_at is not None and k == self.fault_at:
-            self.fault = InjectedFault(f"position {k}")
+            self.fault = (InjectedInterrupt if self.case.get("fault_kind") == "interrupt" else InjectedFault)(f"position {k}")
             self.depth_at_fault = depth
             raise self.fault
 
@@ -203,7 +207,7 @@ def run_case(case, ctx):
             r.body(case["tree"], 0)
             if case.get("fault_at") is not None and r.fault is None and case["fault_at"] < r.counter:
                 ctx.fail("fault-not-raised", "harness: injection position was not reached", case)
-        except InjectedFault as e:
+        except (InjectedFault, InjectedInterrupt) as e:
             if e is not r.fault:
                 ctx.fail("exception-identity", "a different exception object propagated", case)
         if not _same(top, _snap(r.a)):
@@ -243,9 +247,11 @@ def extra(tier, ctx, seed):
                     tree = [dict(VARIANTS[v], body=tree)]
                 npts = _count_points(tree)
                 for fault_at in [None] + list(range(npts)):
-                    case = {"tree": tree, "fault_at": fault_at, "part": "exhaustive-chain"}
-                    ctx.cell(case, run_case)
-                    n += 1
+                    kinds = ["exception"] if (fault_at is None or inner == "sample") else ["exception", "interrupt"]
+                    for kind in kinds:
+                        case = {"tree": tree, "fault_at": fault_at, "fault_kind": kind, "part": "exhaustive-chain"}
+                        ctx.cell(case, run_case)
+                        n += 1
     return {"exhaustive": True, "exhaustive_chain_cases": n,
             "exhaustive_note": "all chains of depth 1..3 over 8 context variants x every injection position x {no-op, sampling} body"}
 
@@ -266,7 +272,7 @@ def _case(draw):
     tree = draw(st.lists(_tree, min_size=1, max_size=3))
     npts = _count_points(tree)
     fault = draw(st.one_of(st.none(), st.integers(0, max(npts - 1, 0))))
-    return {"tree": tree, "fault_at": fault, "part": "generated"}
+    return {"tree": tree, "fault_at": fault, "fault_kind": draw(st.sampled_from(["exception", "exception", "interrupt"])), "part": "generated"}
 
 
 def cases(tier):
